@@ -912,12 +912,13 @@ impl Mp4TrackWriter {
         self.update_sample_times(sample.duration);
         self.update_rendering_offsets(sample.rendering_offset);
         self.update_sync_samples(sample.is_sync);
+        // The sample is recorded: finish the bookkeeping before the flush, so that a flush
+        // that fails on the stream leaves the track consistent for the calls that follow.
+        self.update_durations(sample.duration, movie_timescale);
+        self.sample_id += 1;
         if self.is_chunk_full() {
             self.write_chunk(writer)?;
         }
-        self.update_durations(sample.duration, movie_timescale);
-
-        self.sample_id += 1;
 
         Ok(self.trak.tkhd.duration)
     }
@@ -938,7 +939,8 @@ impl Mp4TrackWriter {
             first_chunk: chunk_id,
             samples_per_chunk: self.chunk_samples,
             sample_description_index: 1,
-            first_sample: self.sample_id - self.chunk_samples + 1,
+            // sample_id is the id of the NEXT sample here (also when write_end flushes)
+            first_sample: self.sample_id - self.chunk_samples,
         };
         self.trak.mdia.minf.stbl.stsc.entries.push(entry);
     }
